@@ -201,13 +201,15 @@ def install():
     # make_distinct: record, per call, how many tighten_bounds() steps each argument received (oracle)
     orig = gb.make_distinct
 
-    def md(*bounded):
+    def md(*proxied):
         if not st["on"]:
-            return orig(*bounded)
+            return orig(*proxied)
+        bounded = proxied
+        bounded = [getattr(b, "_lazy_real", b) for b in bounded]
         ids = [_oid(b) for b in bounded]
         before = [st["tcount"].get(o, 0) for o in ids]
         try:
-            return orig(*bounded)
+            return orig(*proxied)
         finally:
             after = [st["tcount"].get(o, 0) for o in ids]
             final = []
